@@ -110,6 +110,19 @@ impl<T: FftNum> FftPlanner<T> {
         }
     }
 
+    /// Verification hook: which back-end the automatic planner chose
+    #[cfg(rustfft_verif)]
+    #[doc(hidden)]
+    pub fn verif_kind(&self) -> &'static str {
+        match &self.chosen_planner {
+            ChosenFftPlanner::Scalar(_) => "scalar",
+            ChosenFftPlanner::Avx(_) => "avx",
+            ChosenFftPlanner::Sse(_) => "sse",
+            ChosenFftPlanner::Neon(_) => "neon",
+            ChosenFftPlanner::WasmSimd(_) => "wasm_simd",
+        }
+    }
+
     /// Returns a `Fft` instance which computes forward FFTs of size `len`
     ///
     /// If this is called multiple times, the planner will attempt to re-use internal data between calls, reducing memory usage and FFT initialization time.
@@ -289,9 +302,24 @@ impl<T: FftNum> FftPlannerScalar<T> {
     pub fn plan_fft(&mut self, len: usize, direction: FftDirection) -> Arc<dyn Fft<T>> {
         // Step 1: Create a "recipe" for this FFT, which will tell us exactly which combination of algorithms to use
         let recipe = self.design_fft_for_len(len);
+        #[cfg(rustfft_verif)]
+        crate::verif_hooks::note_plan(|| format!("scalar len={} {:?}", len, recipe));
 
         // Step 2: Use our recipe to construct a Fft trait object
         self.build_fft(&recipe, direction)
+    }
+
+    /// Verification hook: the recipe for `len` as text, without constructing anything
+    #[cfg(rustfft_verif)]
+    #[doc(hidden)]
+    pub fn verif_plan_only(&mut self, len: usize, _direction: FftDirection) -> String {
+        format!("{:?}", self.design_fft_for_len(len))
+    }
+    /// Verification hook: the (len, direction) keys of the instance cache, sorted
+    #[cfg(rustfft_verif)]
+    #[doc(hidden)]
+    pub fn verif_cache_keys(&self) -> Vec<(usize, FftDirection)> {
+        self.algorithm_cache.verif_keys()
     }
 
     /// Returns a `Fft` instance which computes forward FFTs of size `len`
